@@ -354,6 +354,49 @@ def _run_inner(spec):
         if not spec['gauss']:
             return err, spec['exact_core_atol'], 'robust solver on its own core model vs analytic core potential'
         return err, spec['atol_unit'] * sum(abs(c) for c, _, _ in g), 'robust solver vs analytic potential'
+    if kind == 'diffuse':
+        # "an option left unset means the documented default on every route": densities with a diffuse component (exponent 0.01 .. 0.04, reaching 20-40 bohr) on a grid
+        # that resolves it, every range option (remove_large_pts, include_origin, boundary, r_interval) LEFT AT ITS DEFAULT and also given explicitly with the documented
+        # default value; bvp / ivp / robust (both splits) against the analytic potential, robust against the plain solver with the same options, defaults vs explicit
+        g = [tuple(x) for x in spec['gauss']]
+        with open(grid.__path__[0] + '/data/atomic_gauss_params.json') as f:
+            table = json.load(f)
+        gr = [(ck, ak, centers[0]) for ck, ak in zip(table['H']['coeffs_s'], table['H']['alphas_s'])] + g
+        q, qr = sum(abs(c) for c, _, _ in g), sum(abs(c) for c, _, _ in gr)
+        rho, rhor = _rho(mg.points, g), _rho(mg.points, gr)
+        pts = _points({**spec, 'rlo': 0.01}, centers, 80.0)
+        explicit = {'boundary': None, 'include_origin': True, 'remove_large_pts': 1e6, 'ode_params': None}
+        worst, where = 0.0, ''
+
+        def upd(label, err, tol):
+            nonlocal worst, where
+            if not (err / tol <= worst):
+                worst, where = err / tol, f'{label}: {err:.3e} vs {tol:.3e}'
+
+        np.random.seed(spec.get('npseed', 0))
+        vp = solve_poisson_bvp(mg, rho, inv)(pts)
+        np.random.seed(spec.get('npseed', 0))
+        vpe = solve_poisson_bvp(mg, rho, inv, **explicit)(pts)
+        # (against the analytic potential these diffuse densities are NOT inside the accuracy envelope of G1: 0.02 .. 25 x the threshold over 15 random grids on the pinned tree;
+        #  the consistency clauses below do not depend on the resolution: robust split 1 vs plain observed <= 1.6e-4 Q -> held to 5e-4 Q, split 2 up to 1e-3 Q -> held to 1e-2 Q)
+        upd('bvp, defaults vs the documented defaults given explicitly', float(np.max(np.abs(vp - vpe))), 1e-10 * q)
+        np.random.seed(spec.get('npseed', 0))
+        vpr = solve_poisson_bvp(mg, rhor, inv)(pts)
+        for s2 in spec['splits']:
+            ab = np.array(spec['alphas_basis']) if s2 else None
+            np.random.seed(spec.get('npseed', 0))
+            vr = solve_poisson_robust(mg, rhor, inv, np.array([1]), np.array(centers), split2=s2, alphas_basis=ab)(pts)
+            np.random.seed(spec.get('npseed', 0))
+            vre = solve_poisson_robust(mg, rhor, inv, np.array([1]), np.array(centers), split2=s2, alphas_basis=ab, **explicit)(pts)
+            upd(f'robust split2={s2}, no bvp option given, vs the plain solver with no option given', float(np.max(np.abs(vr - vpr))), (spec['atol_unit'] if s2 else 5 * spec['linear_atol_unit']) * qr)      # split 1: observed <= 1.6e-4 Q on grids that resolve the diffuse part poorly (<= 1e-5 Q otherwise)
+            upd(f'robust split2={s2}: no option given vs the documented defaults given explicitly', float(np.max(np.abs(vr - vre))), spec['linear_atol_unit'] * qr)
+        if spec.get('ivp'):
+            far = pts[np.linalg.norm(pts - centers[0], axis=1) >= 0.05]
+            vi = solve_poisson_ivp(mg, rho, inv)(far)
+            vie = solve_poisson_ivp(mg, rho, inv, r_interval=(1000, 1e-5), ode_params=None)(far)
+            upd('ivp, r_interval left at its default, vs analytic (distance >= 0.05)', float(np.max(np.abs(vi - _ref(far, g)))), spec['atol_unit'] * q)
+            upd('ivp, default vs r_interval=(1000, 1e-5) given', float(np.max(np.abs(vi - vie))), 1e-12 * q)
+        return worst, 1.0, 'diffuse density, range options unset vs documented defaults, in units of the tolerances; worst: ' + where
     if kind == 'near':
         # round 4, class 19: evaluation points at distances 1e-12 .. 1e-6 from every atomic centre (log-spaced; random directions and along the axes),
         # where the interpolant divides the spline of u = r V by r and the harmonics get the angles of a tiny vector.  Against the analytic potential and
@@ -2474,6 +2517,12 @@ def _cases(ctx: Ctx, budget: str):
         # r_1 V(0) / r (part of the tolerance; molecular cases use a first radial point of 1e-10 and distances >= 1e-9: with 1e-11 solve_bvp stops with 'didn't converge' for 5 of 72 random molecules);
         # molecular grids WITH the origin in the mesh are accurate too but take 25 .. 440 s (not run); the initial-value solver is off by 7 .. 60 x the
         # threshold at 1e-5 and ~1/r below ("difficulty in capturing the origin region", documented): not asserted
+        # ---- ninth seeded round: an option left unset means the documented default on every route -- diffuse components (exponent 0.01 .. 0.04) so that the radial
+        # range matters; pinned envelope measured on G1 (Becke rmin 1e-5, reaching 1e4) with spherical densities, degree 3 / 5 / 11: see the observed values in the evidence
+        cd_ = [round(ctx.rng.uniform(-0.5, 0.5), 3) for _ in range(3)]
+        add("poisson:defaults-diffuse", kind="diffuse", grid=_g1(ctx, deg=ctx.rng.choice([3, 5, 11] if big else [3, 5])), atoms=[cd_],
+            gauss=[(round(ctx.rng.uniform(0.6, 1.4), 3), float(f"{10 ** ctx.rng.uniform(-2, -1.4):.4f}"), cd_), (round(ctx.rng.uniform(0.3, 0.8), 3), _alpha(ctx, 0.4, 3.0), cd_)],
+            splits=[False, True] if big else [False], alphas_basis=[0.03, 0.1, 0.3, 1.0, 3.0, 9.0, 27.0], ivp=False, options={})      # ivp: off by 0.3 .. 1e5 x the tolerance with its default r_interval on these densities (pinned tree): outside its envelope, not asserted
         cn = [round(ctx.rng.uniform(-1, 1), 3) for _ in range(3)]
         add("poisson.solve_poisson_bvp:near-centre", kind="near", route="bvp", grid={**ctx.rng.choice([_g1, _g2])(ctx, deg=11), "rotate": ctx.rng.choice([0, ctx.rng.randrange(1, 10**6)])},
             atoms=[cn], gauss=_centred(ctx, cn), options={"remove_large_pts": ctx.rng.choice([10.0, round(ctx.rng.uniform(10, 25), 2)])}, dlo=1e-12, dhi=1e-6)
@@ -2806,7 +2855,7 @@ def oracle_at(ctx: Ctx, failure):
 
 
 # cost rank of an oracle case (seconds on the pinned tree, rounded up): the large budget runs the cheapest / most diverse first
-_COST = (("poisson.interpolate_laplacian:atomic", 1), ("poisson.solve_poisson_ivp:linearity", 1), ("poisson.solve_poisson_ivp", 1), ("robust_poisson.solve_poisson_robust:near-centre-molecular", 3),
+_COST = (("poisson.interpolate_laplacian:atomic", 1), ("poisson:defaults-diffuse", 1), ("poisson.solve_poisson_ivp:linearity", 1), ("poisson.solve_poisson_ivp", 1), ("robust_poisson.solve_poisson_robust:near-centre-molecular", 3),
          ("near-centre-molecular", 4), ("near-centre", 1), ("poisson.interpolate_laplacian:molecular", 1), ("robust_poisson.solve_poisson_robust:exact", 1),
          ("robust_poisson.solve_poisson_robust:residual", 1), ("robust_poisson.solve_poisson_robust:split2", 1), ("poisson.solve_poisson_bvp:atomic-offcentre-origin", 40),
          ("poisson.solve_poisson_bvp:atomic", 2), ("poisson.solve_poisson_bvp:linearity", 3), ("poisson.solve_poisson_bvp:homogeneity", 3), ("robust_poisson", 3), ("poisson.solve_poisson_bvp:molecular", 5))
